@@ -19,6 +19,9 @@ s = cert_prop.sweep(bins, prop, "quick", seed, families=fams, n=n)
 v = s.pop("violations")
 s.pop("samples")
 print(json.dumps(s))
+from common import load_known_findings  # noqa: E402
+known = set((k["property"], k["key"]) for k in load_known_findings()[0])
+v = [x for x in v if (x["prop"], cert_prop.finding_key(x["prop"], x["what"])) not in known]
 seen = set()
 for x in v:
     k = (x["prop"], cert_prop.finding_key(x["prop"], x["what"]))
